@@ -262,8 +262,10 @@ def check_round(o, tr):
                                       % (b, u, rec, org), sig))
                     else:
                         lp = next((q for q in range(n) if procs[q].get("ws") == u and procs[q].get("link")), None)
-                        ok_window = lp is not None and gc_lock[p] is not None and share_ret[lp] is not None \
-                            and share_ret[lp] < gc_lock[p] <= link_step.get(u, -1)
+                        # the link is never created under a lock: an install hands its package out without one, a use
+                        # has recorded the user under the shared lock strictly before this gc got the exclusive lock
+                        ok_window = lp is not None and gc_lock[p] is not None and gc_lock[p] <= link_step.get(u, -1) \
+                            and (procs[lp]["op"] == "install" or (share_ret[lp] is not None and share_ret[lp] < gc_lock[p]))
                         sig = "gc-between-share-return-and-link" if ok_window else "collected-while-linked:recorded-user"
                         o.out.append(("package %d was collected by a non-forced gc while the recorded workspace %d links "
                                       "to it" % (b, u), sig))
@@ -285,6 +287,9 @@ def check_round(o, tr):
                     if cs is not None and not forced:
                         if cb == p:
                             sig = "install-collected-own-new-package"
+                        elif d["op"] == "install":
+                            # published / found by an install (no lock is held from there to the link)
+                            sig = "gc-between-share-return-and-link"
                         elif share_ret[p] is not None and gc_lock[cb] is not None and share_ret[p] < gc_lock[cb]:
                             sig = "gc-between-share-return-and-link"
                         elif share_ret[p] is not None and share_ret[p] <= cs:
@@ -823,7 +828,8 @@ def model_prog(d):
 
 
 def model_requests(traces):
-    reqs = [{"op": "reset", "ff": False}]
+    # BOB_VERIF_C15_FF=1: compare with the model of the PATCHED OpenLocked.__exit__ (development experiment only)
+    reqs = [{"op": "reset", "ff": os.environ.get("BOB_VERIF_C15_FF") == "1"}]
     for t in traces:
         reqs.append({"op": "procs", "progs": [model_prog(d) for d in t["procs"]]})
         for s in t["steps"]:
@@ -907,7 +913,8 @@ def correspond(ctx):
     done = 0
     first = True
     while first or (done < n and ctx.time_left() > ctx.scale(22, 150)):
-        cs = (cases if first else []) + random_cases(ctx, min(32, n - done), "cor%d" % done)
+        cs = (cases if first else []) + (random_cases(ctx, min(32, n - done), "cor%d" % done)
+                                          if ctx.time_left() > ctx.scale(30, 150) else [])
         first = False
         res = run_cases(ctx, cs, "cor%d" % done, ctx.scale(22, 150))
         reqs, spans = [], []
@@ -963,16 +970,15 @@ def select_correspondence(ctx):
 
 
 def stress(ctx):
-    """free running processes: only timing independent invariants"""
-    import random
+    """free running processes (no cut points): only timing independent invariants are asserted"""
     sw = _sw()
     r = ctx.subrng("stress")
-    for it in range(ctx.scale(0, 120)):
-        if ctx.time_left() < 300:
+    for it in range(ctx.scale(0, 150)):
+        if ctx.time_left() < 200:
             break
         root = os.path.join(ctx.tmp, "stress-%d" % it)
         world = sw.World(root)
-        run_round(world, {"procs": [_inst(100, 1)], "mode": "free"})
+        run_round(world, {"procs": [_inst(100, 1)], "mode": "free"})       # repo.json exists: no creation window
         nsrc = 1
         fails = []
         for wave in range(6):
@@ -989,27 +995,20 @@ def stress(ctx):
                     procs.append(_gc(False, r.random() < 0.5, False, r.choice([None, 30])))
             for d in procs:
                 prep_proc(world, d)
-            ch = [sw.Child(world, d, free=True) for d in procs]
-            for c in ch:
-                os.write(c.cw, b"g")
-            for c, d in zip(ch, procs):
-                c.buf = b""
-                ev = c.go(60.0) if False else None
-            for c, d in zip(ch, procs):
-                import select as _s
-                rr, _, _ = _s.select([c.er], [], [], 60.0)
-                data = os.read(c.er, 65536) if rr else b""
-                c.done = True
-                c.reap()
-                try:
-                    ev = json.loads(data.split(b"\n")[0])
-                except ValueError:
-                    ctx.skip("stress: a process gave no result")
+            children = [sw.Child(world, d, free=True) for d in procs]
+            for c in children:
+                os.write(c.cw, b"g")                  # all start at once and run freely
+            for c, d in zip(children, procs):
+                ev = c.collect(120.0)
+                if ev.get("ev") != "done":
+                    c.kill()
+                    ctx.skip("stress: a process gave no result in time")
                     continue
                 res = ev.get("res") or {}
                 ctx.count("stress_result", res.get("r", "?") + (":" + res["e"] if res.get("r") == "err" else ""))
                 if res.get("r") == "err" and not _expected_input_error(d, res["e"]):
                     fails.append((d, res))
+        world.normalise_mtimes()
         snap = world.snapshot(BIDS, WSS)
         o = OCtx()
         check_snapshot(o, snap, True)
@@ -1018,12 +1017,13 @@ def stress(ctx):
             ctx.violation("stress: " + what, {"kind": "stress", "iteration": it}, sig)
         for d, res in fails:
             if res["e"] in ("jsonDecode", "corruptMeta"):
+                # without cut points the window cannot be observed; the only way to read a torn JSON file here
                 ctx.violation("stress: %s failed with %s" % (d["op"], res["e"]), {"kind": "stress", "iteration": it},
                               "json-read-in-unlock-before-flush-window")
-            elif res["e"] not in ("inspect",):
+            elif res["e"] != "inspect":
                 ctx.violation("stress: %s failed with %s %s" % (d["op"], res["e"], res.get("msg", "")),
                               {"kind": "stress", "iteration": it}, "unexpected-failure:%s:%s" % (d["op"], res["e"]))
-        if not fails and snap["repo"] not in ("torn",):
+        if not fails and snap["repo"] != "torn":
             rec = dict(map(tuple, snap["repo"])) if snap["repo"] != "absent" else {}
             inst = {b: d["info"]["size"] for b, d in zip(BIDS, snap["final"]) if d is not None and isinstance(d["info"], dict)}
             if rec != inst:
